@@ -25,6 +25,11 @@ def run_case(sc, monitors, res, case, tap=True, counters=(), lateness=None, nont
         res.violation(v.signature, v.what, case, {"witness": v.witness, "fates": dict(sim.fates.counts), "opts": sc["opts"], "t": sim.now,
                                                    "tail": [p.brief() for p in (sim.tap.packets[-10:] if sim.tap else [])]})
     for m in monitors:
+        for v in getattr(m, "soft", ()):
+            # violations a monitor recorded without stopping the run (so that the rest of the history is still checked)
+            ok = False
+            res.violation(v.signature, v.what, case, {"witness": v.witness, "fates": dict(sim.fates.counts), "opts": sc["opts"]})
+    for m in monitors:
         res.count(m.name + "_evaluations", m.evaluations)
         for c in counters:
             if hasattr(m, c):
